@@ -398,6 +398,9 @@ func (s *wfState) step(e Ev) bool {
 			oc = ocNonKeyable
 		}
 	case "b", "t", "f", "pi", "ni", "i", "uid", "tm":
+		if e.K == "tm" && !e.T.IsZeroValue() && e.T.Validate() != nil {
+			return false // a time with a field out of range is not a value (go-compact-time decides)
+		}
 		oc, den = ocKeyable, wfKeyDen(e)
 	case "nan":
 		oc = ocNan
